@@ -531,7 +531,11 @@ def bm_latencies(ctx):
     for s, role in R.sites.items():
         if role in ("PRE", "ACT"):
             for src, dst, l in R.edges:
-                if src == s and cmdk + ".ready" not in v.guard_keys(l):
+                if src == s and cmdk + ".ready" not in v.guard_keys(l) and dst not in R.delayed and dst not in (R.delayed.values() if isinstance(R.delayed, dict) else ()):
+                    # an edge that abandons the command (no wait chain behind it): whether the command can have been issued on the way is the typestate rule's business
+                    ob.unknown("state %s also leaves for %s without cmd.ready, not into a timing wait: whether the command presented there is withdrawn cleanly is not decided "
+                               "by this rule" % (s, dst))
+                elif src == s and cmdk + ".ready" not in v.guard_keys(l):
                     ob.refute("edge-without-ready:%s" % s, "state %s leaves for %s without waiting for cmd.ready: the wait starts before "
                               "the command is issued" % (s, dst), l.loc)
 
